@@ -3,8 +3,8 @@
 import json, os, sys
 here = os.path.dirname(os.path.abspath(__file__))
 sys.path.insert(0, here)
-from props import PROPS
-from claims import CLAIMS, NOT_APPLICABLE, ENGINES, HOOK_COMMITS
+from props import PROPS, CLAIMS
+from claims import NOT_APPLICABLE, ENGINES, HOOK_COMMITS
 
 checks = []
 for pid in sorted(PROPS):
